@@ -149,13 +149,14 @@ func replayC09(detail json.RawMessage) error {
 	}
 	if len(c.HistIdx) > 0 {
 		rs.Quiet(false)
-		alphabet, muts := c09Alphabet(), []string{"unroute-put", "route-put"}
-		w, f := corsBuild(c.Cfg, true), corsBuild(c.Cfg, true)
+		alphabet, muts := c09Alphabet(), c09Muts
+		w, f, tw := corsBuild(c.Cfg, true), corsBuild(c.Cfg, true), corsBuild(c.Cfg, false)
 		var last corsResp
 		for k, i := range c.HistIdx {
 			if i >= len(alphabet) {
 				w.mutate(muts[i-len(alphabet)])
 				f.mutate(muts[i-len(alphabet)])
+				tw.mutate(muts[i-len(alphabet)])
 				fmt.Println(muts[i-len(alphabet)])
 				continue
 			}
@@ -166,6 +167,9 @@ func replayC09(detail json.RawMessage) error {
 				fmt.Printf("fresh filter, same routes: %s\n", want)
 				if want != last.key() {
 					return fmt.Errorf("answer depends on the history")
+				}
+				if why := judgeC09(c.Cfg, alphabet[i], last, tw.do(alphabet[i]), routable(tw, strings.Join(alphabet[i].Segs, "/"))); why != "" {
+					return fmt.Errorf("after the mutations of the history: %s", why)
 				}
 			}
 		}
@@ -200,7 +204,11 @@ func replayC09(detail json.RawMessage) error {
 // c09URLs: u1 (GET PUT POST OPTIONS), u2 (DELETE), an unknown URL, and the URLs of two routes
 // whose path variable has a regular expression with its own capturing group: GET /d/{id} and
 // POST /d/{id}/c; and a literal with a non-ASCII letter (percent-encoded on the wire).
-var c09URLs = []string{"u1", "u2", "nope", "d/42", "d/42/c", "d/x", "caf\u00e9", "api/reports", "reports", "api/basket"}
+var c09URLs = []string{"u1", "u2", "nope", "d/42", "d/42/c", "d/x", "caf\u00e9", "api/reports", "reports", "api/basket", "rb1", "rb2"}
+
+// c09Muts: the mutation letters of the E2 histories - route mutations on the dynamic root service,
+// removal / re-adding of the second service.
+var c09Muts = []string{"unroute-put", "route-put", "remove-api", "add-api"}
 
 func c09Alphabet() []h.Req {
 	var alphabet []h.Req
@@ -298,7 +306,7 @@ func checkC09(run *h.Run) {
 	var seqStates, seqTrans int64
 	for _, cfg := range seqCfgs {
 		// two extra letters: route mutations on the dynamic service (computed methods must follow them)
-		muts := []string{"unroute-put", "route-put"}
+		muts := c09Muts
 		nPre := len(alphabet)
 		freshCache := map[string]string{}
 		var fmu sync.Mutex
@@ -324,6 +332,39 @@ func checkC09(run *h.Run) {
 			v = w.do(alphabet[seq[len(seq)-1]]).key()
 			fmu.Lock()
 			freshCache[k] = v
+			fmu.Unlock()
+			return v
+		}
+		// twinAfter: what a filter-less twin that went through the same mutations answers and routes
+		// (a fresh filtered container that went through the same mutations shares whatever the
+		// mutations themselves leave behind, so the statement's rule is evaluated as well)
+		type twinView struct {
+			resp     corsResp
+			routable []string
+		}
+		twinCache := map[string]twinView{}
+		twinAfter := func(seq []int) twinView {
+			var ms []string
+			for _, i := range seq[:len(seq)-1] {
+				if i >= nPre {
+					ms = append(ms, muts[i-nPre])
+				}
+			}
+			q := alphabet[seq[len(seq)-1]]
+			k := fmt.Sprint(ms, seq[len(seq)-1])
+			fmu.Lock()
+			v, ok := twinCache[k]
+			fmu.Unlock()
+			if ok {
+				return v
+			}
+			tw := corsBuild(cfg, false)
+			for _, m := range ms {
+				tw.mutate(m)
+			}
+			v = twinView{tw.do(q), routable(tw, strings.Join(q.Segs, "/"))}
+			fmu.Lock()
+			twinCache[k] = v
 			fmu.Unlock()
 			return v
 		}
@@ -369,6 +410,12 @@ func checkC09(run *h.Run) {
 			if k, want := last.key(), freshAnswer(seq); k != want {
 				run.Violate("preflight-history", "", fmt.Sprintf("%+v ; after the history %q the last preflight is answered %s ; a fresh filter on a container with the same routes answers %s", cfg, names[:len(names)-1], k, want),
 					c09Case{Cfg: cfg, Hist: names, HistIdx: seq, Got: last, Want: want}, nil)
+			} else if tv := twinAfter(seq); true {
+				q := alphabet[seq[len(seq)-1]]
+				if why := judgeC09(cfg, q, last, tv.resp, tv.routable); why != "" {
+					run.Violate("preflight-after-mutations", "", fmt.Sprintf("%+v ; after the history %q : %s", cfg, names[:len(names)-1], why),
+						c09Case{Cfg: cfg, Hist: names, HistIdx: seq, Got: last, Want: tv.routable}, nil)
+				}
 			}
 		})
 		seqStates += int64(len(seqs))
@@ -385,7 +432,7 @@ func checkC09(run *h.Run) {
 	run.Cov["evaluations"] = cases*2 + seqTrans
 	run.Cov["distinct_nontrivial"] = nontriv + seqStates
 	run.Cov["exhaustive"] = true
-	run.Cov["rule"] = fmt.Sprintf("E1: configurations (allowed methods {computed,[GET],[GET,PUT]} x allowed headers {none,[X-A],[X-A,X-B],[*]} x cookies x router) x requests (6 URLs incl. routes whose variable has a regular expression with a capturing group x allowed/case-variant/disallowed origin x 6 requested methods x 8 requested-header lists, plus actual requests incl. non-OPTIONS requests carrying Access-Control-Request-Method) against the statement's grant rule, routable methods measured on a filter-less twin; E2: every sequence of <= %d steps over 11 preflights (3 URLs x 3 methods, 2 URLs of a second non-dynamic service) and 2 route mutations (RemoveRoute / Route of PUT on a dynamic service) on one filter, each preflight answer compared with a fresh filter's on a container with the same routes; E3 (instrumented build): two concurrent preflights through one filter, all schedules within the preemption bound with happens-before race detection. Non-trivial: request from an allowed origin / every history.", depth)
+	run.Cov["rule"] = fmt.Sprintf("E1: configurations (allowed methods {computed,[GET],[GET,PUT]} x allowed headers {none,[X-A],[X-A,X-B],[*]} x cookies x router) x requests (6 URLs incl. routes whose variable has a regular expression with a capturing group x allowed/case-variant/disallowed origin x 6 requested methods x 8 requested-header lists, plus actual requests incl. non-OPTIONS requests carrying Access-Control-Request-Method) against the statement's grant rule, routable methods measured on a filter-less twin; (two routes of the world are declared with one reused RouteBuilder) E2: every sequence of <= %d steps over 11 preflights (3 URLs x 3 methods, 2 URLs of a second non-dynamic service) and 4 mutations (RemoveRoute / Route of PUT on a dynamic service, Remove / Add of the second service) on one filter, each preflight answer compared with a fresh filter's on a container that went through the same mutations and judged by the statement's rule against a filter-less twin that went through them too; E3 (instrumented build): two concurrent preflights through one filter, all schedules within the preemption bound with happens-before race detection. Non-trivial: request from an allowed origin / every history.", depth)
 	run.Assume = []string{"method-name case (get vs GET) is not decided by the statement: either answer accepted", "statement's grant rule transcribed in judgeC09"}
 	if f := e3Part["C09"]; f != nil {
 		f(run)
